@@ -20,7 +20,7 @@ MANIFEST = {
             "alphabet 00/61/ff, key lengths 0-3, up to 7 views forming a tree of depth 2-3 with siblings off derived views, snapshots) and random scans run on the real code over in-memory "
             "pebble; each observation is compared in Coq with the model and with the specification; DB dumped after Commit and "
             "after RevertDiff (through the diff codec).",
-    "note": "Four genuine defects found by the faithful model were repaired in /repo (limit before staged deletes; Iterate "
+    "note": "Nine genuine defects were repaired in /repo (see docs/C12.md: limit before staged deletes; Iterate "
             "through a prefix view; RestoreSnapshot with older views; reverse IterateRange) and the repaired code is what is "
             "modelled; their replays are in corpus/C12. Trusted: pebble iterators obey sorted-map semantics (sampled by the scan "
             "cases), Go map iteration order is irrelevant (proved: results are sorted / order-insensitive), byte slices are not "
@@ -162,6 +162,12 @@ def evaluate(ck, recs):
             ck.failures.append(f)
     for c in recs:
         for cm in [c.get("commit"), c.get("commit2")] + list(c.get("commits") or []):
+            if cm and cm.get("codec_ok") is False:
+                f = dict(kind="history", key="c12:commit:diff-codec",
+                         what="Decode(Encode(diff)) lost entries of the diff returned by Commit: %s" % json.dumps(strip_obs(c)),
+                         case=strip_obs(c), observed=cm, theorem_or_correspondence="diff codec round trip (C08)")
+                f["spec_violated"] = True
+                ck.failures.append(f)
             if cm and cm.get("dry_ok") is False:
                 f = dict(kind="history", key="c12:commit:dry-run-differs",
                          what="a dry-run Commit (batch never written) followed by the real Commit returned different diffs: %s" % json.dumps(strip_obs(c)),
@@ -211,7 +217,14 @@ def evaluate(ck, recs):
                     spec_bad = code >= 2
                     sub = ""
                     if kind == "ops2" and spec_bad:
-                        sub = ":after-commit" if phase1.get(id(c)) == 0 else ":before-commit"
+                        # the known key only when the implementation AGREES WITH THE MODEL (code 2 exactly) and everything before the
+                        # first Commit satisfies the oracle; a case that also differs from the model (code 3) is a different failure
+                        if code == 2 and phase1.get(id(c)) == 0:
+                            sub = ":after-commit"
+                        elif code == 2:
+                            sub = ":before-commit"
+                        else:
+                            sub = ":and-differs-from-model"
                     f = dict(kind="history", key="c12:%s:%s%s" % (kind, "spec" if spec_bad else "model", sub),
                              what="%s: implementation %s on %s" % (what, "violates the staged-map oracle" if spec_bad
                                                                   else "differs from the proved model", json.dumps(strip_obs(c))),
